@@ -84,7 +84,7 @@ Proof.
   - subst. plain A T.
   - subst. plain A T.
   - subst. plain A T.
-  - destruct St as [_ ->]. plain A T.
+  - destruct St as [_ [_ ->]]. plain A T.
   - destruct St as (c' & Hsame & [-> | ->]); [plain A T |]. untr A s T. apply dlv_tr_same. exact Hsame.
   - subst. plain A T.
   - destruct St as [_ ->]. plain A T.
